@@ -387,6 +387,7 @@ def check_fill_in(ctx):
     ctx.ob('elimination-fill-in', fi, add_stmt, X == Y,
            'eliminating `%s`: its neighbours must be read from the working graph that receives the fill-in edges (later eliminations '
            'must see earlier fill-in); neighbours come from `%s`, edges go to `%s`' % (node, X, Y), construct='working graph of the elimination')
+    check_sweep_exits(ctx, fi, loop, node, X, add)
     removed = [1 for s_, c, pc_, lp in be.calls if lp and isinstance(c.func, ast.Attribute) and c.func.attr == 'remove_node'
                and U(c.func.value) == X and T(c.args[0]) == node]
     recorded = [1 for s_, c, pc_, lp in be.calls if lp and isinstance(c.func, ast.Attribute) and c.func.attr == 'add'
@@ -436,6 +437,69 @@ def check_fill_in(ctx):
         how = '`%s`, a copy of the model graph plus the accumulated fill-in edges' % tri
     ctx.ob('elimination-fill-in', fi, fi.node, ok, 'the triangulated graph returned must contain the model graph and every fill-in edge; returns %s' % how,
            construct='triangulated graph')
+
+
+def check_sweep_exits(ctx, fi, loop, node, X, add):
+    """Leaving the elimination sweep early.  Known to be sound: the node about to be eliminated is adjacent to every other node left in the
+    working graph (degree == number of nodes - 1) AND its step is carried out (neighbours connected, node removed) - the rest is then
+    complete and no later elimination adds an edge.  The same test BEFORE the step proves nothing: the neighbours are not yet connected,
+    and the fill-in of this node and of every later one is lost."""
+    def top_index(n):
+        for i, s_ in enumerate(loop.body):
+            if n is s_ or any(x is n for x in ast.walk(s_)):
+                return i
+        return None
+    i_add = top_index(add)
+    if i_add is None:
+        # the call was taken from the expanded body: find the statement of the loop that makes it
+        hits = [i for i, s_ in enumerate(loop.body) for c in ast.walk(s_) if isinstance(c, ast.Call) and isinstance(c.func, ast.Attribute)
+                and c.func.attr == 'add_edges_from' and U(c.func.value) == U(add.func.value)]
+        i_add = hits[0] if hits else None
+    exits = []
+
+    def scan(stmts, guards):
+        for s_ in stmts:
+            if isinstance(s_, (ast.Break, ast.Continue, ast.Return)):
+                exits.append((s_, list(guards)))
+            elif isinstance(s_, ast.If):
+                scan(s_.body, guards + [(s_.test, True)])
+                scan(s_.orelse, guards + [(s_.test, False)])
+            elif isinstance(s_, (ast.With, ast.Try)):
+                scan(s_.body, guards)
+    scan(loop.body, [])
+    if not exits:
+        return
+    defs = {}
+    for s_ in loop.body:
+        if isinstance(s_, ast.Assign) and len(s_.targets) == 1 and isinstance(s_.targets[0], ast.Name):
+            defs.setdefault(s_.targets[0].id, []).append((top_index(s_), s_.value))
+    universal = ('%s.degree(%s)==%s.number_of_nodes()-1' % (X, node, X), '%s.degree(%s)==len(%s)-1' % (X, node, X),
+                 '%s.degree[%s]==len(%s)-1' % (X, node, X), '%s.degree[%s]==%s.number_of_nodes()-1' % (X, node, X),
+                 'len(list(%s.neighbors(%s)))==len(%s)-1' % (X, node, X), 'len(%s[%s])==len(%s)-1' % (X, node, X))
+    from ..srcmodel import canon_compare
+    for ex, guards in exits:
+        i_ex = top_index(ex)
+        if len(guards) != 1 or not guards[0][1]:
+            raise AnalysisError('_triangulated: early exit of the elimination sweep under `%s` is not decided' % ' and '.join(U(g) for g, _ in guards)[:100])
+        g = guards[0][0]
+        where_eval = i_ex
+        if isinstance(g, ast.Name) and len(defs.get(g.id, [])) == 1:
+            where_eval, g = defs[g.id][0]
+        gt = U(canon_compare(g)).replace(' ', '')
+        if gt not in universal and U(g).replace(' ', '') not in universal:
+            raise AnalysisError('_triangulated: early exit of the elimination sweep under `%s` is not decided' % U(g)[:100])
+        after_step = i_add is not None and i_ex is not None and i_ex > i_add
+        tested_before_step = where_eval is not None and i_add is not None and where_eval <= i_add
+        removed_before_exit = any(isinstance(c, ast.Call) and isinstance(c.func, ast.Attribute) and c.func.attr == 'remove_node' and U(c.func.value) == X
+                                  for s_ in loop.body[:i_ex] for c in ast.walk(s_))
+        if isinstance(ex, ast.Continue):
+            raise AnalysisError('_triangulated: `continue` in the elimination sweep is not decided')
+        ok = after_step and tested_before_step
+        ctx.ob('elimination-fill-in', fi, ex, ok,
+               'the sweep stops once the eliminated node is adjacent to all remaining nodes (`%s`): sound only AFTER this node\'s own step (its '
+               'neighbours connected - the rest is then complete); here the exit comes %s' % (U(g)[:70], 'after the step' if ok else
+               'before the neighbours of `%s` are connected: this node\'s fill-in and that of every later node is lost' % node),
+               construct='early exit of the elimination sweep')
 
 
 def merge_pass(fi, b, free):
